@@ -272,3 +272,271 @@ def i0(ctx):
             ctx.violate(key, None, 'no abstract state makes any mutating critical section of this body feasible: the invariant check would be vacuous for it', sig='vacuous-body')
     if nfeasible == 0:
         ctx.violate('<crate>', None, 'anchor missing: no feasible (state, section) pair was found', sig='vacuous')
+
+
+# ------------------------------------------------------------------------------------------------------------------
+# I1: single-step conformance with the reference channel (queue + waiting list), over the same finite abstract domain
+# ------------------------------------------------------------------------------------------------------------------
+
+def spec_send(s, blocking):
+    """reference transition of a send-like call: returns (result kind, post-state)"""
+    t = s.copy()
+    if s.rc == 0:
+        return ('err:Closed' if s.sc == 0 else 'err:ReceiveClosed'), t
+    if 'R' in s.wl:
+        t.wl.pop(0)
+        return 'ok', t
+    if s.q < s.cap:
+        t.q += 1
+        return 'ok', t
+    if blocking:
+        t.wl.append('S')
+        return 'registered', t
+    return 'refused', t
+
+
+def spec_recv(s, blocking):
+    t = s.copy()
+    if s.rc == 0:
+        return 'err:Closed', t
+    if s.q > 0:
+        t.q -= 1
+        if 'S' in t.wl:
+            t.wl.pop(0)
+            t.q += 1
+        return 'value', t
+    if 'S' in s.wl:
+        t.wl.pop(0)
+        return 'value', t
+    if s.sc == 0:
+        return 'err:SendClosed', t
+    if blocking:
+        t.wl.append('R')
+        return 'registered', t
+    return 'none', t
+
+
+def spec_drain(s):
+    t = s.copy()
+    if s.rc == 0:
+        return 'err:Closed', t
+    n = s.q + len([x for x in s.wl if x == 'S'])
+    t.q = 0
+    t.wl = [x for x in s.wl if x != 'S']
+    return 'count:%d' % n, t
+
+
+def spec_close(s):
+    t = s.copy()
+    if s.sc == 0 and s.rc == 0:
+        return 'err:CloseError', t
+    t.sc = t.rc = 0
+    t.wl = []
+    t.q = 0
+    return 'ok', t
+
+
+def spec_drop(s, side):
+    t = s.copy()
+    if side == 'S':
+        if t.sc > 0:
+            t.sc -= 1
+            if t.sc == 0 and t.rc != 0:
+                t.wl = []
+    else:
+        if t.rc > 0:
+            t.rc -= 1
+            if t.rc == 0 and t.sc != 0:
+                t.wl = []
+    return 'unit', t
+
+
+def spec_clone(s, side):
+    t = s.copy()
+    if side == 'S':
+        if t.sc > 0:
+            t.sc += 1
+    else:
+        if t.rc > 0:
+            t.rc += 1
+    return 'handle', t
+
+
+def model_key(s):
+    return (s.q, ''.join(s.wl), s.sc, s.rc)
+
+
+def op_of(body):
+    """(op, arg) for a body key, or None"""
+    k = body.key
+    nm = body.j.get('name', '')
+    h = None
+    for hh in ('AsyncSender', 'AsyncReceiver', 'Sender', 'Receiver'):
+        if k.startswith(hh + '::<T>::') or k.startswith('<' + hh + '<T> as '):
+            h = hh
+            break
+    if k == fam.SEND_POLL:
+        return ('send', True, 'poll')
+    if k == fam.RECV_POLL:
+        return ('recv', True, 'poll')
+    if h is None:
+        return None
+    side = 'S' if 'Sender' in h else 'R'
+    if k.endswith('as std::ops::Drop>::drop'):
+        return ('drop', side, None)
+    if k.endswith('as std::clone::Clone>::clone') or nm in ('clone_sync', 'clone_async'):
+        return ('clone', side, None)
+    if nm == 'close':
+        return ('close', None, None)
+    if nm == 'drain_into':
+        return ('drain', None, None)
+    if side == 'S' and nm in ('send', 'send_timeout', 'send_option_timeout') and h == 'Sender':
+        return ('send', True, nm)
+    if side == 'S' and nm.startswith('try_send'):
+        return ('send', False, nm)
+    if side == 'R' and nm in ('recv', 'recv_timeout') and h == 'Receiver':
+        return ('recv', True, nm)
+    if side == 'R' and nm.startswith('try_recv'):
+        return ('recv', False, nm)
+    return None
+
+
+def path_kind(ctx, body, p, evs, op):
+    """result kind of an implementation path, in the vocabulary of the spec"""
+    shape = fam.final_ret(p, evs)
+    rk = fam.success_kind(shape) if shape else '?'
+    if op[0] == 'send':
+        if any(e.name == 'PUSH_SEND' for e in evs):
+            return 'registered'
+        return rk
+    if op[0] == 'recv':
+        if any(e.name == 'PUSH_RECV' for e in evs):
+            return 'registered'
+        return rk
+    if op[0] == 'drain':
+        if rk.startswith('err'):
+            return rk
+        return 'count'  # refined with the evaluated number by the caller
+    if op[0] == 'close':
+        return rk
+    if op[0] == 'drop':
+        return 'unit'
+    if op[0] == 'clone':
+        return 'handle'
+    return rk
+
+
+def eval_count(v, s0, vec_before=0):
+    """evaluate a returned count expression on the pre-state s0 (lengths are read before draining)"""
+    from mir import ci_field_ref
+    if v is None:
+        return None
+    if v[0] == 'const':
+        try:
+            return int(v[2])
+        except ValueError:
+            return None
+    if v[0] == 'bin' and v[1] in ('Add', 'Sub'):
+        a = eval_count(v[2], s0)
+        b = eval_count(v[3], s0)
+        if a is None or b is None:
+            return None
+        return a + b if v[1] == 'Add' else a - b
+    if v[0] == 'call' and v[2] == 'std::collections::VecDeque::len' and v[3]:
+        f = ci_field_ref(v[3][0])
+        if f == 'queue':
+            return s0.q
+        if f == 'wait_list':
+            return len(s0.wl)
+    return None
+
+
+@rule('I1', ['C18', 'C03', 'C08', 'C10', 'C11', 'C12', 'C14', 'C19', 'C02', 'C09'], 'single-step conformance with the reference channel: from every small abstract state each entry point has a feasible path, and every feasible path returns the kind of result and reaches the state the reference model prescribes')
+def i1(ctx):
+    states = small_states(True)
+    npairs = 0
+    ops_checked = 0
+    for key, b in ctx.facts.bodies.items():
+        op = op_of(b)
+        if op is None:
+            continue
+        ps = b.paths(max(ctx.k, 2))
+        ctx.bodies_visited.add(key)
+        if ps is None:
+            ctx.violate(key, None, 'cannot analyse: path explosion', sig='paths')
+            continue
+        ctx.instance(key)
+        ops_checked += 1
+        cand = []
+        for p in ps:
+            if p.end != 'return':
+                continue
+            evs = ctx.sem(p)
+            if op[2] == 'poll':
+                # only the arm that performs the operation (Zero, or the stream re-arm)
+                if not any(e.name == 'RD' and e.data['field'] == 'recv_count' and e.sec is not None for e in evs):
+                    continue
+            secs = split_sections(evs)
+            cand.append((p, evs, secs))
+            ctx.paths_visited += 1
+        reported = set()
+        for s0 in states:
+            if op[0] == 'send':
+                want, post = spec_send(s0, op[1])
+            elif op[0] == 'recv':
+                want, post = spec_recv(s0, op[1])
+            elif op[0] == 'drain':
+                want, post = spec_drain(s0)
+            elif op[0] == 'close':
+                want, post = spec_close(s0)
+            elif op[0] == 'drop':
+                # the handle being dropped is alive: on an open channel its side's count is >= 1
+                want, post = spec_drop(s0, op[1])
+            elif op[0] == 'clone':
+                want, post = spec_clone(s0, op[1])
+            else:
+                continue
+            matched = 0
+            for p, evs, secs in cand:
+                lb = sem.labels(evs)
+                s = s0.copy()
+                try:
+                    if secs:
+                        # prefix before the first lock carries no channel state; apply the first (state) section
+                        apply_section(secs[0][1] if len(secs) == 1 else secs[0][1], s, None)
+                    else:
+                        # no lock taken at all (failed try-lock): only external nondeterminism
+                        pass
+                except Infeasible:
+                    continue
+                # external nondeterminism that the single-threaded reference does not have
+                if sem.has(lb, 'trylocked', 'None'):
+                    continue
+                if sem.has(lb, 'late', 'T'):
+                    continue
+                npairs += 1
+                kind = path_kind(ctx, b, p, evs, op)
+                wkind = want
+                if op[0] == 'drain' and kind == 'count':
+                    shape = fam.final_ret(p, evs)
+                    n = eval_count(shape[1] if shape and shape[0] == 'Ok' else None, s0)
+                    kind = 'count:%s' % ('?' if n is None else n)
+                ok_kind = (kind == wkind)
+                ok_state = model_key(s) == model_key(post)
+                if ok_kind and ok_state:
+                    matched += 1
+                    continue
+                rk = (key, s0.key(), kind)
+                sig = '%s:%s->%s' % (p.signature(), wkind, kind)
+                if sig in reported:
+                    continue
+                reported.add(sig)
+                ctx.violate(key, p, 'reference channel disagrees: from state %s the reference %s and reaches %s; this path %s and reaches %s' % (
+                    s0.key(), wkind, model_key(post), kind, model_key(s)), sig=sig)
+            if matched == 0 and not any(('nomatch', want) == r for r in reported):
+                # no feasible path realises the reference behaviour from this state
+                if cand:
+                    reported.add(('nomatch', want))
+                    ctx.violate(key, None, 'no path of %s realises the reference behaviour (%s) from state %s' % (key, want, s0.key()), sig='nomatch:' + want)
+    ctx.oblige(npairs, sample='%d entry points x %d abstract states: %d feasible (state, path) pairs agree with the reference channel in result kind and post-state' % (ops_checked, len(states), npairs))
+    ctx.extra_evidence = {'abstract_states': len(states), 'entry_points': ops_checked, 'feasible_pairs': npairs}
